@@ -11,7 +11,7 @@
 #include "transcript.h"
 #include "private/ed25519_ref10.h"
 #include "crypto_hash_sha512.h"
-struct vin_t { unsigned long long mlen; unsigned char sk[64], seed[32], d[4][64], renc[32], s_out[32]; int prehashed, lenp_null; };
+struct vin_t { unsigned long long mlen; unsigned char sk[64], seed[32], d[4][64], renc[32], s_out[32]; int prehashed, lenp_null; unsigned char ov[2 * 96 + 80 + 64 + 8]; };
 struct vin_t nondet_vin(void);
 struct vin_t vin;
 VMISUSE_DEFINE
@@ -104,6 +104,7 @@ void hb_sign_overlap(void)
     VIN_GET(); n_sd = 0;
     VASSUME(vin.mlen <= 80);
     static unsigned char big[2 * VOV + 80 + 64 + 8]; unsigned char *m = big + VOV, *sm = big + VOV + (VDELTA), orig = 0; unsigned long long smlen = 9; int r;
+    memcpy(big, vin.ov, sizeof big);                                         /* arbitrary buffer contents */
     sd_g = vin.seed[0] % 80;
 #ifndef VNATIVE
     v_gidx_mm = sd_g;
